@@ -329,3 +329,64 @@ pub fn run_cycle(out: &mut Out, rng: &mut Rng, thorough: bool) {
         out.rec("cycle", "randops", &input, res.trim_start());
     }
 }
+
+// ------------------------------------------------------------------------------------------------
+// op `clip1` (C05): isolated filter ties.  For every vertex of a reachable cell on which the float filter of
+// the next bisector returns 0, the record carries the five integer grid points the exact predicate is
+// evaluated on and whether the real `clip_by_plane` removed the vertex.
+// ------------------------------------------------------------------------------------------------
+
+pub fn run_clip1(out: &mut Out, rng: &mut Rng, thorough: bool) {
+    let reps = if thorough { 60 } else { 8 };
+    for _ in 0..reps {
+        for fam in ["lattice", "lattice_wall", "cospherical_lattice", "on_boundary", "coplanar"] {
+            for (dim, periodic) in [(3usize, false), (3, true), (2, false), (2, true)] {
+                let n = 6 + rng.below(24) as usize;
+                let inp = gen::make(rng, fam, dim, periodic, n);
+                let mut r2 = rng.fork(13);
+                let sc = match guarded(std::panic::AssertUnwindSafe(|| scenario(&inp, &mut r2))) {
+                    Ok(Some(sc)) => sc,
+                    _ => continue,
+                };
+                let ties: Vec<usize> = (0..sc.cell.vertices.len()).filter(|&i| sc.hs.clip(sc.cell.vertices[i].loc) == 0.).collect();
+                if ties.is_empty() {
+                    continue;
+                }
+                let mut reference = sc.cell.clone();
+                meshless_voronoi::verif_hooks::reset_exact_test_count();
+                let ok = guarded(std::panic::AssertUnwindSafe(|| vh::cell_clip(&mut reference, sc.hs.clone(), &sc.gens, &sc.boundary)));
+                let calls = meshless_voronoi::verif_hooks::exact_test_count();
+                if ok.is_err() {
+                    // the panic itself is C05's business in the cells/tess ops; no decision can be read off
+                    continue;
+                }
+                let kept: std::collections::HashSet<[usize; 3]> = reference.vertices.iter().map(|v| canon(v.dual)).collect();
+                let idx = sc.cell.idx;
+                for &i in &ties {
+                    let v = &sc.cell.vertices[i];
+                    let pts = [
+                        sc.cell.loc,
+                        sc.cell.clipping_planes[v.dual[0]].right_loc(idx, &sc.gens),
+                        sc.cell.clipping_planes[v.dual[1]].right_loc(idx, &sc.gens),
+                        sc.cell.clipping_planes[v.dual[2]].right_loc(idx, &sc.gens),
+                        sc.hs.right_loc(idx, &sc.gens),
+                    ];
+                    let mut s = String::new();
+                    let mut range_ok = true;
+                    for p in pts {
+                        match sc.boundary.iloc_checked(p) {
+                            Ok(q) => s.push_str(&format!("{} {} {} ", q[0], q[1], q[2])),
+                            Err(_) => range_ok = false,
+                        }
+                    }
+                    if !range_ok {
+                        out.rec("clip1", &inp.family, "0 0 0 0 0 0 0 0 0 0 0 0 0 0 0", "RANGE");
+                        continue;
+                    }
+                    let removed = !kept.contains(&canon(v.dual));
+                    out.rec("clip1", &inp.family, s.trim_end(), &format!("{} {} {}", if removed { "removed" } else { "kept" }, ties.len(), calls));
+                }
+            }
+        }
+    }
+}
